@@ -80,6 +80,7 @@ PROPS = {
             "note": "Trusted: Coq kernel + vm_compute; the correspondence harness; file-name validation/open/parse of an included file is an oracle (Section variable) answered from the real files. Dict keys distinct (NoDup hypothesis). No axioms.",
             "design_ref": "DESIGN.md section 6 C18"},
         "streams": ["merge", "includes"],
+        "stream_filters": {"includes": r"^(?!path: )"},
         "witnesses": ["F19"],
         "rule": ("merge: 36-case matrix over {absent, leaf, null, empty map, map, map'} x same under one key, plus seeded random "
                  "tree pairs (depth <= 3) -- non-trivial = the two trees share a key; includes: 5 schema shapes (root / two "
